@@ -116,6 +116,22 @@ def run(repo: Repo, rep: Report, tier: str) -> None:
                 else:
                     rep.ok("complementary", f"{inst}: rejected with result {d['result']} on both sides", "")
     rep.floor("role-space points", n, 90)
+    # the same abstract syntax requested in two contexts, the first refused (no common transfer syntax), the second
+    # accepted: each context is decided by the acceptor's answer for *that* context - the accepted one comes out
+    # exactly as when it is requested alone, the refused one with the default roles
+    n_rp = 0
+    for lp_ in ((True, True), (True, False), (False, True), (False, False)):
+        for rp_ in (None, (True, True), (True, False), (False, True), (False, False)):
+            try:
+                alone = ne.requestor(lp_, 0, rp_)
+                first, second = ne.requestor_pair(lp_, rp_)
+            except Unsupported as exc:
+                rep.defer(f"presentation.negotiate_as_requestor: two-context scenario not evaluable: {exc}")
+                continue
+            n_rp += 1
+            okp = second.get("result") == 0 and (second.get("as_scu"), second.get("as_scp")) == (alone.get("as_scu"), alone.get("as_scp")) and first.get("result") == 4
+            rep.check(okp, "iteration-independent", "presentation.negotiate_as_requestor", f"[requested roles {lp_}, reply {rp_}] refused context -> {first}, accepted context -> {second}", f"two contexts with the same abstract syntax, the first refused and the second accepted: the accepted one must get the roles it gets when requested alone ({(alone.get('as_scu'), alone.get('as_scp'))}); an outcome computed once per abstract syntax from the first (refused) context gives the accepted one the default roles while the acceptor applies the negotiated ones - the two ends disagree", mod=pres, node=rq.node)
+    rep.floor("two-context requestor scenarios", n_rp, 15)
     rep.extra["role_space_points"] = n
     rep.extra["exhaustive"] = True
     rep.sample({"point": "[normal] proposal=(True, True), acceptor roles=(False, True)", "acceptor": ne.acceptor((True, True), (False, True)), "requestor": ne.requestor((True, True), 0, (False, True))})
